@@ -19,6 +19,7 @@ from .symexec import RaiseSig, ReturnSig, BreakSig, ContinueSig, PathEnd, exc_is
 TWO32 = 2 ** 32
 
 LIB_AXIOMS = {
+    'write-only attribute': 'A-WRITEONLY: an attribute outside the declared state that no expression of the package reads is not modelled; writes to it are skipped',
     'Lock.acquire': 'Lock.acquire() returns True once the lock is held (False possible only when non-blocking or with a timeout); Lock.release() of an unheld lock raises RuntimeError',
     'Lock.release': 'see Lock.acquire',
     'struct.pack': "struct.pack('<nI', v...) raises struct.error unless every 0 <= v < 2^32, else returns the concatenation of le32(v)",
@@ -395,6 +396,29 @@ class World(object):
             cache[key] = problem
         if cache[key]:
             raise Unsupported('field access is no longer plain: ' + cache[key])
+
+    def attr_is_write_only(self, ref, attr):
+        """No expression anywhere in the package module of the class reads `<anything>.attr` (an augmented assignment's own target aside)."""
+        modshort, clsname = ref.split(':')
+        cache = self.__dict__.setdefault('_wo_cache', {})
+        key = (modshort, attr)
+        if key not in cache:
+            ok = True
+            for short in ('adb_device', 'adb_device_async', 'hidden_helpers', 'adb_message', modshort):
+                try:
+                    module = self.sources.module(short)
+                except OSError:
+                    continue
+                for n in ast.walk(module.tree):
+                    if isinstance(n, ast.Attribute) and n.attr == attr and isinstance(n.ctx, ast.Load):
+                        ok = False
+                    if isinstance(n, ast.Call) and isinstance(n.func, ast.Name) and n.func.id in ('getattr', 'vars', 'setattr') :
+                        if n.func.id != 'getattr' or (len(n.args) > 1 and isinstance(n.args[1], ast.Constant) and n.args[1].value == attr):
+                            ok = False
+                    if isinstance(n, ast.Attribute) and n.attr == '__dict__':
+                        ok = False
+            cache[key] = ok
+        return cache[key]
 
     def real_class_assigns(self, ref, attr):
         """Does any method of the real class (or of a base class inside the package) store to self.<attr>, or the class body bind it?"""
